@@ -6,7 +6,12 @@ proofs: Properties/C15.v over Model/Bind.v.  correspondence: harness/t_arena.c
     mi_arena_id_is_suitable, _mi_arena_memid_is_suitable, _mi_heap_memid_is_suitable on grids;
   T records (implementation-side oracle below): every address returned by a heap, against the arena areas and against the
     regions given to mi_manage_os_memory_ex, over seeded histories with bound / unbound heaps, thread exit, adoption,
-    collects, reclaim-on-free on and off, exhaustion."""
+    collects, reclaim-on-free on and off, exhaustion.
+op-level trace tie: harness/t_bind.c drives the real allocator (several live threads that run in turns, heaps bound to arenas,
+  tagged and destroyable heaps, thread exit with live blocks, reclaim by allocation / mi_collect / mi_free, mi_heap_delete /
+  mi_heap_destroy) and dumps after every API call the projection of the real state that Model/Bind.v has; OCaml mode bind-trace
+  (ocaml/mode_bindtrace.ml) evaluates bound_inv_b / placed_inv_b on every dump and explains every transition by Bind.step
+  operations; the same dumps are judged by an independent oracle below (trace_oracle)."""
 import os, collections
 import vlib
 from vlib import log
@@ -125,6 +130,232 @@ def oracle(lines):
     return bad, stats, hist, scn
 
 
+def suitable(seg_is_arena, seg_aid, seg_excl, req):
+    """_mi_arena_memid_is_suitable, written down independently of the model and of the code"""
+    if seg_is_arena:
+        return (not seg_excl and req == 0) or seg_aid == req
+    return req == 0
+
+
+def trace_oracle(lines, seed, tier):
+    """implementation-side oracle on the dumps of harness/t_bind.c.  Every dumped state: (1) every page that belongs to a heap
+    lies in a segment whose memid is suitable for the arena of that heap; (2) a segment with an arena memid lies inside the
+    area of that arena and that arena has the same exclusive flag; (3) every returned pointer lies in the segment / page
+    the dump shows for it, inside the arena of a bound heap, and in no exclusive arena the heap is not bound to; (4) the area
+    of a managed arena lies inside the region given to mi_manage_os_memory_ex.
+    returns (violations [(key, text, witness, scenario, step)], stats, per-scenario info)"""
+    BLK = 32 * 1024 * 1024
+    bad = []
+    stats = collections.Counter()
+    scn = None; arenas = {}; regions = {}; heaps = {}; segs = {}; calls = []; offenders = set(); call = None
+    scn_info = collections.OrderedDict()
+
+    def witness(n):
+        base = scn.rstrip("0123456789")
+        last = "; ".join(calls[max(0, n - 8):n])
+        return "t_bind %d %d %s (scenario %s): API calls 1..%d, the last ones: %s" % (seed, 1 if tier == "thorough" else 0, base, scn, n, last)
+
+    def fail(key, text, seg=None):
+        if len(bad) < 60:
+            bad.append((key, text, witness(len(calls)), scn, len(calls)))
+
+    def parse_seg(w):
+        spans = []
+        for sp in w[11:]:
+            f = sp.split(":")
+            if f[0] == "p":
+                spans.append((int(f[1]), int(f[2]), int(f[3]), int(f[4]), int(f[5])))    # idx cnt heap tag live
+        return dict(addr=int(w[1]), arena=(w[2] == "a"), aid=int(w[3]), excl=(w[4] == "1"), size=int(w[5]), owner=int(w[6]), pages=spans)
+
+    changed = []
+    for l in lines:
+        w = l.split()
+        if not w:
+            continue
+        k = w[0]
+        if k == "T":
+            if w[1] == "scenario":
+                scn = w[2]; arenas = {}; regions = {}; heaps = {}; segs = {}; calls = []; offenders = set(); changed = []
+                scn_info[scn] = {"calls": 0, "ended": False, "crash": None, "counts": collections.Counter()}
+            elif w[1] == "end" and w[2] in scn_info:
+                scn_info[w[2]]["ended"] = True
+            elif w[1] == "crash" and w[2] in scn_info:
+                scn_info[w[2]]["crash"] = w[3]
+            elif w[1] == "count" and w[2] in scn_info:
+                scn_info[w[2]]["counts"][w[3]] += int(w[4])
+            elif w[1] == "rss":
+                stats["max_rss_kb"] = max(stats["max_rss_kb"], int(w[3]))
+            continue
+        if scn is None:
+            continue
+        if k == "C":
+            call = w
+            calls.append(" ".join(w[3:]))
+            changed = []
+        elif k == "A":
+            arenas[int(w[1])] = dict(id=int(w[1]), excl=(w[2] == "1"), start=int(w[3]), size=int(w[4]) * BLK)
+            stats["arenas"] += 1
+        elif k == "R":
+            regions[int(w[1])] = (int(w[2]), int(w[3]), int(w[4]), int(w[5]))
+        elif k == "H":
+            tid = int(w[1])
+            for h in [x for t, x in list(heaps.items()) if x["tid"] == tid]:
+                del heaps[h["ptr"]]
+            for hs in w[4:]:
+                f = hs.split(":")
+                heaps[int(f[0])] = dict(ptr=int(f[0]), tid=tid, arena=int(f[1]), tag=int(f[2]))
+        elif k == "S":
+            s = parse_seg(w); segs[s["addr"]] = s; changed.append(s["addr"])
+        elif k == "X":
+            segs.pop(int(w[1]), None)
+        elif k == "E":
+            fail("impl:dump-incomplete", "the dump of harness/t_bind.c is inconsistent: " + " ".join(w[1:]))
+        elif k == "D":
+            stats["calls"] += 1; scn_info[scn]["calls"] += 1
+            stats["call:" + call[3]] += 1
+            # (4) managed regions
+            if call[3] == "manage":
+                aid = int(call[-1])
+                if aid in arenas and aid in regions:
+                    a = arenas[aid]; (rs, rz, ms, mz) = regions[aid]
+                    if not (rs <= a["start"] and a["start"] + a["size"] <= rs + rz):
+                        fail("impl:area-outside-region", "arena %d: area [%#x,+%d) is not inside the region [%#x,+%d) given to mi_manage_os_memory_ex" % (aid, a["start"], a["size"], rs, rz))
+                    if a["start"] % BLK != 0:
+                        fail("impl:area-misaligned", "arena %d: area start %#x is not segment aligned" % (aid, a["start"]))
+            # (1) (2) on the segments that changed (a heap table change re-checks everything)
+            todo = list(segs.keys()) if call[3] in ("heap_new", "heap_delete", "heap_destroy", "thread_exit", "thread_start") else changed
+            for addr in todo:
+                s = segs.get(addr)
+                if s is None:
+                    continue
+                stats["segment_states_checked"] += 1
+                if s["arena"]:
+                    a = arenas.get(s["aid"])
+                    nb = (s["size"] + BLK - 1) // BLK
+                    if a is None or a["excl"] != s["excl"] or not (a["start"] <= addr and addr + nb * BLK <= a["start"] + a["size"]):
+                        fail("impl:segment-outside-arena", "segment %#x (+%d) carries memid arena %d (exclusive %d) but does not lie in the area of such an arena" % (addr, s["size"], s["aid"], s["excl"]), addr)
+                for (idx, cnt, hp, tag, live) in s["pages"]:
+                    if hp == 0:
+                        continue
+                    stats["page_states_checked"] += 1
+                    h = heaps.get(hp)
+                    if h is None:
+                        fail("impl:page-of-dead-heap", "segment %#x: the page at slice %d belongs to heap %#x which is not a live heap" % (addr, idx, hp), addr)
+                        continue
+                    if not suitable(s["arena"], s["aid"], s["excl"], h["arena"]) and (addr, idx) not in offenders:
+                        offenders.add((addr, idx))
+                        if s["arena"] and s["excl"] and h["arena"] != s["aid"]:
+                            fail("impl:exclusive-arena-leak", "after `%s`: a page (slice %d) of segment %#x in EXCLUSIVE arena %d belongs to heap %#x (thread %d, bound to arena %d, tag %d)"
+                                 % (" ".join(call[3:6]), idx, addr, s["aid"], hp, h["tid"], h["arena"], h["tag"]), addr)
+                        else:
+                            fail("impl:bound-heap-outside-arena", "after `%s`: heap %#x bound to arena %d owns a page (slice %d) of segment %#x whose memory is %s"
+                                 % (" ".join(call[3:6]), hp, h["arena"], idx, addr, ("arena %d" % s["aid"]) if s["arena"] else "from the OS"), addr)
+            offenders = set((a_, i_) for (a_, i_) in offenders if a_ in segs and any(p[0] == i_ and p[2] != 0 for p in segs[a_]["pages"]))
+            # (3) returned pointers
+            if call[3] == "malloc":
+                hp = int(call[4]); size = int(call[5]); ptr = int(call[7]); sg = int(call[8]); sl = int(call[9])
+                h = heaps.get(hp)
+                if ptr == 0:
+                    stats["nulls"] += 1
+                    if h is not None and h["arena"] == 0 and size < (1 << 30):
+                        fail("impl:unbound-null", "an unbound heap returned NULL for %d bytes" % size)
+                else:
+                    stats["allocs"] += 1
+                    stats["bound_allocs" if h is not None and h["arena"] != 0 else "unbound_allocs"] += 1
+                    s = segs.get(sg)
+                    if s is None or not (sg <= ptr and ptr + size <= sg + max(s["size"], BLK)) or not any(p[0] == sl and p[2] == hp and p[4] > 0 for p in s["pages"]):
+                        fail("impl:returned-pointer-not-in-dump", "malloc(heap %#x, %d) = %#x: the dump has no live page of that heap at segment %#x slice %d" % (hp, size, ptr, sg, sl), sg)
+                    if h is not None and h["arena"] != 0:
+                        a = arenas.get(h["arena"])
+                        if (a is None or not (a["start"] <= ptr and ptr + size <= a["start"] + a["size"])) and (sg, sl) not in offenders:   # an offending page was reported when it appeared
+                            fail("impl:bound-heap-outside-arena", "a heap bound to arena %d returned %#x (+%d), outside mi_arena_area" % (h["arena"], ptr, size), sg)
+                    for a in arenas.values():
+                        if a["excl"] and (h is None or h["arena"] != a["id"]) and a["start"] <= ptr < a["start"] + a["size"] and (sg, sl) not in offenders:
+                            fail("impl:exclusive-arena-leak", "memory of EXCLUSIVE arena %d was returned by a heap that is not bound to it (heap %#x)" % (a["id"], hp), sg)
+                    for aid, (rs, rz, ms, mz) in regions.items():
+                        if (ms <= ptr < ms + mz) and not (rs <= ptr and ptr + size <= rs + rz):
+                            fail("impl:outside-managed-region", "address %#x (+%d) lies in the mapping around arena %d but outside the region given to mi_manage_os_memory_ex" % (ptr, size, aid), sg)
+    for name, inf in scn_info.items():
+        if inf["crash"] is not None or not inf["ended"]:
+            scn = name; calls = []
+            bad.append(("impl:harness-crash:" + name.rstrip("0123456789"), "scenario %s of harness/t_bind.c died (signal/status %s) on the current tree" % (name, inf["crash"]),
+                        "t_bind %d %d %s" % (seed, 1 if tier == "thorough" else 0, name.rstrip("0123456789")), name, None))
+        for kname, v in inf["counts"].items():
+            stats["count:" + kname] += v
+            if kname in ("setup_failed", "manage_failed", "reserve_failed"):
+                bad.append(("impl:arena-setup", "harness/t_bind.c could not create its arenas (%s)" % kname, "t_bind %d %d %s" % (seed, 1 if tier == "thorough" else 0, name.rstrip("0123456789")), name, None))
+    return bad, stats, scn_info
+
+
+def run_trace(res, a, seeds):
+    """the op-level trace tie (harness/t_bind.c + OCaml mode bind-trace + trace_oracle)"""
+    exe = os.path.join(vlib.BUILD, "t_bind_%s" % a.pid)
+    ok, txt, cmd = vlib.cc(os.path.join(vlib.HARN, "t_bind.c"), exe)
+    if not ok:
+        res.violation("harness-build", "harness/t_bind.c no longer compiles against the current tree (a modelled function changed its interface): " + txt[-1500:])
+        return {}
+    okb, txt = vlib.ocaml_build()
+    if not okb:
+        res.violation("model-build", "extracted model does not build: " + txt[-1200:])
+    tot = collections.Counter(); per_scn = {}; samples = []
+    for sd in seeds:
+        rc, out, err = vlib.run_split(["timeout", "-k", "5", "2400" if a.tier == "thorough" else "600", exe, str(sd), "1" if a.tier == "thorough" else "0"],
+                                      timeout=2500 if a.tier == "thorough" else 650, env=vlib.clean_env())
+        if rc != 0 or not out.rstrip().endswith("END"):
+            res.violation("harness-crash", "t_bind exited with %d: %s" % (rc, err[-800:]), witness="t_bind %d" % sd)
+        lines = out.splitlines()
+        bad, stats, scn_info = trace_oracle(lines, sd, a.tier)
+        tot.update(stats)
+        known = set(); mism = []; invs = []; other = []
+        if okb:
+            rc2, mout = vlib.model_replay("bind-trace", out, timeout=2400)
+            ml = mout.splitlines()
+            if rc2 != 0 or not any(l.startswith("DONE") for l in ml):
+                res.violation("model-run", "model replay (bind-trace) failed: " + mout[-800:])
+            for l in ml:
+                f = l.split()
+                if l.startswith("KNOWN "):
+                    known.add((f[1], int(f[2].split("=")[1])))
+                    res.violation(KNOWN_TAG_KEY, "trace tie, scenario %s %s: %s" % (f[1], f[2], " ".join(f[3:])[:400]), witness="t_bind %d %d %s" % (sd, 1 if a.tier == "thorough" else 0, f[1].rstrip("0123456789")))
+                elif l.startswith("MISMATCH "):
+                    mism.append(l)
+                elif l.startswith("INV "):
+                    invs.append(l)
+                elif l.startswith(("RET ", "DUMP ")):
+                    other.append(l)
+                elif l.startswith("STAT trace "):
+                    d = dict(x.split("=", 1) for x in f[3:] if "=" in x)
+                    per_scn["%d/%s" % (sd, f[2])] = {k: d.get(k) for k in ("calls", "changed", "ops", "unexplained", "inv", "known", "opkinds")}
+                    tot["model_ops"] += int(d.get("ops", "0"))
+                    for kv in (d.get("opkinds") or "").split(","):
+                        if ":" in kv:
+                            tot["op:" + kv.split(":")[0]] += int(kv.split(":")[1])
+        # implementation-side oracle; a broken page that the model explains as the known finding carries the known key
+        fired = {}
+        for key, text, wit, scn, step in bad:
+            if key in ("impl:exclusive-arena-leak", "impl:bound-heap-outside-arena") and (scn, step) in known:
+                key = KNOWN_TAG_KEY
+            else:
+                fired.setdefault(scn, wit)
+            res.violation(key, text, witness=wit)
+        def scn_of(l): return l.split()[2] if l.startswith("MISMATCH") else l.split()[1]
+        for l in mism[:6]:
+            res.violation("corr:bind-trace", "no sequence of operations of Model/Bind.v explains an observed transition of the real allocator: " + l[:1500],
+                          witness=fired.get(scn_of(l)))
+        for l in invs[:6]:
+            f = l.split()
+            n = int(f[2].split("=")[1])
+            res.violation("impl:bind-trace-inv", "an invariant of Model/Bind.v is false on a dumped state of the real allocator: " + l[:600],
+                          witness=fired.get(f[1]) or ("t_bind %d %d %s (scenario %s): API calls 1..%d" % (sd, 1 if a.tier == "thorough" else 0, f[1].rstrip("0123456789"), f[1], n)))
+        for l in other[:4]:
+            res.violation("corr:bind-trace-dump", "the dump and the returned pointers disagree: " + l[:600], witness=fired.get(scn_of(l)))
+        tot["mismatch_lines"] += len(mism); tot["inv_lines"] += len(invs); tot["known_lines"] += len(known)
+        if not samples:
+            cl = [l for l in lines if l.startswith(("C ", "S "))]
+            samples = [x[:300] for x in (cl[10:12] + cl[len(cl) // 2:len(cl) // 2 + 2])]
+    return {"stats": dict(tot), "per_scenario": per_scn, "samples": samples}
+
+
 def corpus_regression(res, a):
     """corpus/C15/*.c : the stored witness programs, rebuilt against the current tree"""
     cdir = os.path.join(vlib.VERIF, "corpus", "C15")
@@ -167,6 +398,7 @@ def run(res, a):
     bad, stats, hist, scn = oracle(tl)
     for key, text, wit in bad:
         res.violation(key, text, witness=wit)
+    trace = run_trace(res, a, seeds)
     okb, txt = vlib.ocaml_build()
     mism = []
     if not okb:
@@ -186,7 +418,8 @@ def run(res, a):
                 res.violation("corr:" + fn, "model/implementation disagreement on %s (%d records), e.g. %s" % (fn, len([x for x in mism if x.split()[2] == fn]), m),
                               witness=(m if fn in ("manage_region", "manage_inuse") else None))
     fcount = collections.Counter(l.split()[1] for l in fl)
-    res.cov["evaluations"] = len(fl) + stats["allocs"] + stats["nulls"]
+    tstats = trace.get("stats", {})
+    res.cov["evaluations"] = len(fl) + stats["allocs"] + stats["nulls"] + tstats.get("calls", 0)
     res.cov["distinct_nontrivial"] = len(set(fl)) + len(set((x[1], x[2], x[4]) for s in scn.values() for x in s["allocs"]))
     res.cov["rule"] = ("F records: real static functions vs. the extracted Coq model (manage_os_memory arithmetic and the pre-claimed bits on random "
                        "misalignments/sizes incl. refused ones, suitability predicates on a grid of ids/kinds); T records: every address returned by "
@@ -194,7 +427,12 @@ def run(res, a):
                        "reclaim-on-free 0/1, try_reclaim by allocation, heap delete, exhaustion) checked against mi_arena_area of the bound arena, "
                        "against every exclusive arena, and against the region given to mi_manage_os_memory_ex. "
                        "distinct = distinct F lines + distinct (heap label, bound arena, size) of T allocations")
-    res.cov["traces_validated_against_impl"] = len(scn)
+    res.cov["traces_validated_against_impl"] = len(scn) + len(trace.get("per_scenario", {}))
+    res.cov["trace_tie"] = {"rule": "harness/t_bind.c: after every API call (manage, thread start / exit, heap new / delete / destroy, malloc, free, collect) the "
+                                    "projection of the real state (arenas, heap lists, segments with memid / owner / visits, pages with heap / tag / live / slices, free spans) "
+                                    "is dumped; OCaml mode bind-trace explains every transition by Bind.step operations with reconstructed choices and evaluates "
+                                    "bound_inv_b / placed_inv_b / slice accounting on every dump; trace_oracle judges the same dumps independently",
+                            "totals": tstats, "per_scenario": trace.get("per_scenario", {})}
     res.cov["disagreements_checked"] = len(mism)
     res.cov["input_distribution"] = {"F": dict(fcount), "T": dict(stats), "alloc_kinds": dict(hist), "scenarios": list(scn.keys()), "corpus_programs": ncorpus}
     res.cov["exhaustive"] = False
@@ -202,6 +440,8 @@ def run(res, a):
         res.add_samples([fl[0], fl[len(fl) // 2], fl[-1]])
     if tl:
         res.add_samples([tl[1], tl[len(tl) // 2], tl[-2]])
+    if trace.get("samples"):
+        res.add_samples(trace["samples"])
     res.assumptions += ["64-bit Linux release configuration; arena ids are ints, 0 = none",
                         "heaps created with tag 0 (thread init, mi_heap_new, mi_heap_new_in_arena): the theorems are `_partial` in the heap tag, see known finding impl:reclaim-by-tag-exclusive",
                         "the arena claim hands out only zero bits of blocks_inuse inside field_count fields (property C14); C15 proves those bits are inside the region"]
